@@ -9,3 +9,5 @@ def run(ctx):
     from ..scen_go import go_chain
     go_chain(ctx, want=('go.capacity',))
     go_chain(ctx, want=('go.complete',))
+    from ..conform import conformance
+    conformance(ctx, ['pipeline'])      # the references the obligations are stated against, compared with jawk::go on concrete runs (validates the oracles; never decides)
